@@ -42,8 +42,8 @@ def run(tier):
     by_key = {(r["table"], r["key"]): r for r in table}
     for it in issues:
         kind, rest = it.split(":", 1)
-        key = rest.split(":")[0].split("=")[0]
-        bare = key.split(":")[-1]
+        parts = rest.split("=")[0].split(":")            # 'p:API=f:API' | 'API:what' | 'A_API'
+        bare = parts[1] if parts[0] in ("p", "f", "o") and len(parts) > 1 else parts[0]
         code = bare.split("_")[-1]
         report.fail({"site": "library", "kind": kind, "code": code},
                     {"issue": it, "rows": [r for r in table if r["key"].split("_")[-1] == code],
